@@ -56,7 +56,7 @@ theorem C11_recurrent_result_does_not_unlock_consumers (P : Program) (s : St) (d
 theorem C11_recurrent_result_uses_no_unlock (c : Ctx) (s : St) (obs : List Obs) (d : DagRef) (n : Node)
     (below : List Frame) (data : Val) (e : Bool) :
     nodePost c s obs d n below (.recur data) e =
-      retTo c (nodeFinally c.P ((spawn s [.recStart d n (.recur data)] (.recur n)).1.setRes n (.recur data)) d n false)
+      retTo c (nodeFinally c.P (storeIf (recSpawn s d n (.recur data)) e n (.recur data)) d n false)
         (obs ++ [.spawn s.tasks.length (.recur n)]) below .none := by
   simp [nodePost, Val.isRecur]
 
